@@ -153,7 +153,7 @@ impl Language for Scala {
         writeln!(
             w,
             "type {}{} = {}\n",
-            ty.id.original,
+            ty.id.renamed,
             (!ty.generic_types.is_empty())
                 .then(|| format!("[{}]", ty.generic_types.join(", ")))
                 .unwrap_or_default(),
